@@ -42,7 +42,7 @@ func (v sval) String() string {
 	return v.sym
 }
 
-func symv(s string) sval   { return sval{sym: s} }
+func symv(s string) sval           { return sval{sym: s} }
 func constv(c constant.Value) sval { return sval{c: c} }
 
 type specOutcome struct {
@@ -547,7 +547,6 @@ func outcomeSet(outs []specOutcome, render func(o specOutcome) string) string {
 	return strings.Join(ks, " | ")
 }
 
-
 // specStore / specLoad track local aggregates (struct literals, varargs arrays) as tuples in the environment;
 // a pointer to a local aggregate and the aggregate itself share one entry.
 func specStore(env map[ssa.Value]sval, addr ssa.Value, val sval) {
@@ -626,7 +625,6 @@ func specLoad(env map[ssa.Value]sval, addr ssa.Value) (sval, bool) {
 	}
 	return sval{}, false
 }
-
 
 func effectsOf(conds []string) []string {
 	var out []string
